@@ -135,7 +135,7 @@ func gen(rt *rapid.T) Script {
 			st.Target = rapid.SampledFrom([]string{"mine", "mine", "mine", "foreign", "foreign", "live", "stale", "stale", "stale", "never", "variant", "none"}).Draw(rt, "target")
 			st.Keep = st.Kind == "get" && rapid.Bool().Draw(rt, "keep")
 		case "adv":
-			st.Mode = rapid.SampledFrom([]string{"small", "mult", "mult", "expiry", "expiry", "expiry"}).Draw(rt, "mode")
+			st.Mode = rapid.SampledFrom([]string{"small", "mult", "mult", "expiry", "expiry", "expiry", "long"}).Draw(rt, "mode")
 			st.K = rapid.IntRange(0, 6).Draw(rt, "k")
 			st.Delta = rapid.SampledFrom([]int64{-1, 0, 1}).Draw(rt, "delta")
 		case "race":
@@ -174,6 +174,9 @@ type rec struct {
 	lo, hi    time.Duration
 	maybeDead bool // a request raced with the idle timer: may already be gone
 	gets      []*memhttp.Exchange
+	// delEx: the DELETE that found handlers of this session still running (state stClosing). Once it has been
+	// answered with a success code the client has been told that the session is gone.
+	delEx *memhttp.Exchange
 }
 
 type inv struct {
@@ -568,6 +571,13 @@ func (w *world) noEffect(invs []inv, what string) {
 
 // invariants is clause (3)'s second half, checked at quiescence after every step.
 func (w *world) invariants() {
+	for _, r := range w.recs {
+		if r.state == stClosing && r.delEx != nil && r.delEx.HandlerDone() && is2xx(r.delEx.Status()) {
+			// the DELETE has been answered: whatever the server still has to finish, the id is dead for every client
+			w.label("del:answered-after-waiting")
+			w.kill(r, "deleted (its DELETE has been answered)")
+		}
+	}
 	present := map[*mcp.ServerSession]bool{}
 	n := 0
 	for ss := range w.server.Sessions() {
@@ -971,6 +981,7 @@ func (w *world) request(method, sub, sid string, u int, keep bool) {
 				w.kill(r, "deleted")
 			} else {
 				r.state = stClosing
+				r.delEx = ex
 				w.label("del:with-POST-in-progress")
 			}
 			return
@@ -1093,6 +1104,8 @@ func (w *world) advance(st Step) {
 		d = smallSteps[st.K%len(smallSteps)]
 	case "mult":
 		d = time.Duration(st.K%3+1)*unit + time.Duration(st.Delta)
+	case "long":
+		d = 6*time.Second + time.Duration(st.Delta) // longer than any delay the SDK puts on a shutdown step
 	}
 	for _, r := range w.recs {
 		if r.state == stLive && r.posts > 0 && w.timeout > 0 && d >= w.timeout {
